@@ -128,6 +128,15 @@ def discrete_models(kind):
         y1 = lsl.obs(jnp.asarray([0.1, 0.3], jnp.float32), lsl.Dist(tfd.Normal, loc=m1, scale=1.0), name="y1")
         y2 = lsl.obs(jnp.asarray([2.0], jnp.float32), lsl.Dist(tfd.Poisson, rate=lsl.Calc(lambda m: 1.0 + 2.0 * m, m1)), name="y2")
         return lsl.GraphBuilder().add(y1, y2).build_model(), [0, 1], [0, 1]
+    if kind in ("finite_start_outside", "finite_zero_prior"):
+        # the current value has zero density: outside the outcome set, or an outcome of prior probability 0
+        grid = lsl.Var(jnp.asarray([0.0, 1.0, 2.0]), name="value_grid")
+        probs = [0.2, 0.3, 0.5] if kind == "finite_start_outside" else [0.0, 0.4, 0.6]
+        start = -1.0 if kind == "finite_start_outside" else 0.0
+        z = lsl.Var(jnp.asarray(start), lsl.Dist(tfd.FiniteDiscrete, outcomes=grid, probs=jnp.asarray(probs)), name="z")
+        y = lsl.obs(jnp.asarray([0.7, 1.2, 0.6], jnp.float32), lsl.Dist(tfd.Normal, loc=lsl.Calc(lambda z: 0.5 * z, z), scale=0.8),
+                    name="y")
+        return lsl.GraphBuilder().add(y).build_model(), None, [0.0, 1.0, 2.0]
     if kind == "bernoulli_tempered":
         # the model's joint density is a user-supplied (tempered) log-prob node
         z = lsl.Var(jnp.asarray(1), lsl.Dist(tfd.Bernoulli, probs=lsl.Value(0.3)), name="z")
